@@ -378,7 +378,7 @@ pub fn child_main(seed: u64, from: u64, to: u64, progress_path: &str, out_path: 
     let mut distinct: Vec<u64> = vec![];
     let mut max_req_seen = vec![0usize; SUBJECTS.len()];
     if track {
-        alloc::REFUSE_ABOVE.store(1 << 30, std::sync::atomic::Ordering::Relaxed);
+        alloc::REFUSE_ABOVE.store(1 << 31, std::sync::atomic::Ordering::Relaxed);
     }
     // warm up lazily initialised state outside the measured region
     for s in 0..SUBJECTS.len() {
@@ -538,7 +538,9 @@ pub fn run(rep: &mut StageReport, tier: &str, seed: u64, exe: &str, work: &str) 
                     format!("{} panicked at {} ({}) on a {}-byte {} input: {}", subject, f["location"].as_str().unwrap_or(""), f["message"].as_str().unwrap_or(""), f["input_len"], f["strategy"].as_str().unwrap_or(""), f["input_hex"].as_str().unwrap_or("")),
                 ),
                 "allocation" => (
-                    format!("C06/decoders/allocation/{}", subject),
+                    // the size class (bit length of the largest request) is part of the signature,
+                    // so that a different allocation defect of the same decoder is still reported
+                    format!("C06/decoders/allocation/{}/2^{}", subject, 63 - f["largest_request"].as_u64().unwrap_or(1).max(1).leading_zeros()),
                     format!("{} requested {} bytes in one allocation (peak growth {}) for a {}-byte input decoding to {} bytes; budget {}; input: {}", subject, f["largest_request"], f["peak_growth"], f["input_len"], f["output_len"], f["budget"], f["input_hex"].as_str().unwrap_or("")),
                 ),
                 "abort" => (
@@ -670,7 +672,7 @@ fn absorb(res: &mut ShardResult, v: &Value) {
 pub fn run_one(seed: u64, idx: u64) {
     let (subject, input, strategy) = gen_input(seed, idx);
     println!("subject: {}\nstrategy: {}\ninput ({} bytes): {}", SUBJECTS[subject], strategy, input.len(), hex_trunc(&input, 200));
-    alloc::REFUSE_ABOVE.store(1 << 30, std::sync::atomic::Ordering::Relaxed);
+    alloc::REFUSE_ABOVE.store(1 << 31, std::sync::atomic::Ordering::Relaxed);
     let live0 = alloc::live();
     alloc::begin();
     let r = catch_unwind(AssertUnwindSafe(|| run_subject(subject, &input)));
